@@ -162,6 +162,12 @@ pub fn nest_source(kind: usize, depth: usize, rng: &Rng, d: &Delims) -> String {
                 "{# only a comment #}", "{% raw %}{% endraw %}", "{% raw %}{{ x }}{% endraw %}", "{{ true and false or not true }}", "{{ 1 < 2 < 3 }}", "{{ 1 == 1 == true }}", "{{ not not not x }}", "{{ -(-(-1)) }}",
                 "{# multi\nline\ncomment #}", "{% raw %}\n{{ x }}\n{% endraw %}", "{{ \"a\nb\" }}", "{{ 'a\r\nb' }}", "{{\nx\n}}", "{%\nif x\n%}a{%\nendif\n%}", "a\n\n{{ x |\n upper }}\n", "{{ `a\n\nb` ~\n1 }}",
                 "\n\n\n{# c\r\n#}\r\n{{ \"\u{e9}\n\u{1F389}\" }}",
+                // loop-only statements where no loop is open — alone, and after constructs that
+                // open and close a loop context of their own (for, comprehension, component)
+                "{% continue %}", "{% break %}", "{% if a %}{% break %}{% endif %}", "{{ [x for x in y] }}{% continue %}", "{{ [x for x in y] }}{% if a %}{% break %}{% endif %}",
+                "{% set a = [x for x in y if x] %}{% continue %}", "{% for a in b %}{% endfor %}{% continue %}", "{% for a in b %}{% else %}{% break %}{% endfor %}",
+                "{% component C() %}{{ [x for x in y] }}{% continue %}{% endcomponent C %}", "{% for a in b %}{% component D() %}{% break %}{% endcomponent D %}{% endfor %}",
+                "{% for a in [x for x in y] %}{% endfor %}{% break %}", "{% filter upper %}{% continue %}{% endfilter %}", "{% block b %}{% break %}{% endblock %}",
                 "{% if true %}{% if false %}{% endif %}{% endif %}", "{% for a in b %}{% if a %}{% break %}{% endif %}{% endfor %}", "{% for a in b %}{% continue %}{% endfor %}", "{{ a.b?.c }}", "{{ a?[0] }}",
                 "{{ \"\" ~ \"\" }}", "{{ [][0] }}", "{{ {}[\"a\"] }}", "{{ \"\"[0:0] }}", "{{ x | default(value=[]) }}", "{% component E() %}{% endcomponent E %}{{ <E/> }}", "{% component F(a=[]) %}{{ a }}{% endcomponent F %}{{ <F a={[...[1]]}/> }}",
             ];
